@@ -74,7 +74,9 @@ def storage_from_pairs(pairs: list):
     return {(tuple(k.split(",")) if "," in k else k): v for k, v in pairs}
 
 
-def run_and_reload(tdesc: dict, inputs: list, kinds: dict, storage, thorough: bool, root: str) -> dict:
+def run_and_reload(tdesc: dict, inputs: list, kinds: dict, storage, thorough: bool, root: str, entry: str = "map") -> dict:
+    """entry: "map" (sequential) | "async" (map_async through a thread pool) | "async-keep" (map_async with cleanup=False
+    into a folder that does not exist yet: nothing to resume, the run is a whole run)."""
     if isinstance(storage, list):
         storage = storage_from_pairs(storage)
     pdesc = pmap.tla_desc_to_py(tdesc)
@@ -87,7 +89,10 @@ def run_and_reload(tdesc: dict, inputs: list, kinds: dict, storage, thorough: bo
         with contextlib.redirect_stdout(io.StringIO()):
             pl = build.make_pipeline(pdesc)
         inp = pmap.inputs_to_py(inputs, kinds)
-        evs, res = pmap.do_map(pl, pdesc, inp, run_folder=folder, storage=storage, parallel=False, load=False)
+        if entry == "map":
+            evs, res = pmap.do_map(pl, pdesc, inp, run_folder=folder, storage=storage, parallel=False, load=False)
+        else:
+            evs, res = do_map_async(pl, pdesc, inp, folder, storage, cleanup=(entry == "async"))
         ms_in = list(pl.mapspecs_as_strings)
         if not isinstance(res, Exception):
             evs.append(load_event(folder, "same", st_in, ms_in))
@@ -112,7 +117,46 @@ def run_and_reload(tdesc: dict, inputs: list, kinds: dict, storage, thorough: bo
                 evs.append(load_in_new_interpreter(folder, st_in, p1["ms"]))
     finally:
         shutil.rmtree(folder, ignore_errors=True)
-    return {"desc": tdesc, "inputs": inputs, "ev": evs, "meta": {"storage": st_in, "kinds": kinds}}
+    return {"desc": tdesc, "inputs": inputs, "ev": evs, "meta": {"storage": st_in, "kinds": kinds, "entry": entry}}
+
+
+def do_map_async(pl, pdesc: dict, inp: dict, folder: str, storage, cleanup: bool) -> tuple[list[dict], object]:
+    import asyncio
+    from concurrent.futures import ThreadPoolExecutor
+    events = [pmap.ev(e="begin", F=[fd["name"] for fd in pdesc["funcs"]], cleanup=cleanup, fixed=[], cache=pl.cache is not None)]
+    start = len(build.read_log())
+    ex = ThreadPoolExecutor(2)
+
+    async def go():
+        am = pl.map_async(inp, run_folder=folder, storage=storage, executor=ex, cleanup=cleanup)
+        return await am.task
+    try:
+        with contextlib.redirect_stdout(io.StringIO()):
+            res = asyncio.run(go())
+    except (Exception, asyncio.CancelledError) as exn:  # noqa: BLE001
+        ex.shutdown(wait=True)
+        evs = pmap.log_events(start)
+        return events + evs + [pmap.ev(e="error" if evs else "reject", F=events[0]["F"], cls=type(exn).__name__, msg=str(exn)[:300])], exn
+    ex.shutdown(wait=True)
+    return events + pmap.log_events(start) + [pmap.ev(e="return", results=pmap.results_json(res), loaded=[])], res
+
+
+def resume_and_reload(scen: dict, case: dict, storage, pool: str | None, root: str) -> dict:
+    """Sessions: parts with fixed_indices, then a full run with cleanup=False (c06.run_history, optionally through a real
+    pool), then reloads in the same process and in a fresh child: what the LAST session left must reload exactly."""
+    from . import c06
+    st_in = storage_pairs(storage)
+
+    def after(folder: str, pl) -> list[dict]:
+        ms_in = list(pl.mapspecs_as_strings)
+        evs = [load_event(folder, "same", st_in, ms_in)]
+        code, p2 = in_child(lambda: {"ev": [load_event(folder, "fresh", st_in, ms_in)]})
+        if p2 is None:
+            raise MachineryError(f"reload child exited with {code}")
+        return evs + p2["ev"]
+    h = c06.run_history(scen, case, storage, pool=pool, after=after)
+    return {"desc": h["desc"], "inputs": h["inputs"], "ev": h["ev"],
+            "meta": {"storage": st_in, "kinds": {}, "entry": f"sessions-{pool or 'seq'}", "case": case}}
 
 
 def load_in_new_interpreter(folder: str, st_in: list, ms_in: list) -> dict:
@@ -190,6 +234,21 @@ def run(ctx: Ctx) -> None:
                 for st in storages:
                     traces.append(run_and_reload(nd, scens[sn]["inputs"], {n: "list" for n, _ in scens[sn]["inputs"]}, st,
                                                  not quick, root))
+        # the async entry point (also with cleanup=False into a new folder), every storage
+        for sn in (["zip", "multi"] if quick else list(scens)):
+            for st in storages:
+                for entry in ("async", "async-keep"):
+                    traces.append(run_and_reload(scens[sn]["desc"], scens[sn]["inputs"],
+                                                 {n: "list" for n, _ in scens[sn]["inputs"]}, st, False, root, entry=entry))
+        # sessions: partial runs, then the rest with cleanup=False (sequentially and through pools), then reloads
+        from . import c06
+        scen6, cases6, _ = c06.export(ctx, "consumer")
+        multi = [c for c in cases6 if c["kind"] == "parts" and len(c["parts"]) >= 2]
+        rng.shuffle(multi)
+        for k, c in enumerate(multi[: (2 if quick else 10)]):
+            for st in storages:
+                for pool in (None, "thread", "process"):
+                    traces.append(resume_and_reload(scen6, c, st, pool, root))
         cases = c01.export_universe(ctx, maxsize=2, rich=False, nshards=16)
         rng.shuffle(cases)
         for k, c in enumerate(cases[: (40 if quick else 600)]):
@@ -236,7 +295,13 @@ def replay(rep: dict) -> int:
     root = tempfile.mkdtemp(prefix="pfverif_c04r_")
     try:
         st = w["meta"]["storage"]
-        t = run_and_reload(w["desc"], w["inputs"], w["meta"]["kinds"], st, False, root)
+        entry = w["meta"].get("entry", "map")
+        if entry.startswith("sessions-"):
+            pool = entry.split("-", 1)[1]
+            t = resume_and_reload({"desc": w["desc"], "inputs": w["inputs"]}, w["meta"]["case"], storage_from_pairs(st),
+                                  None if pool == "seq" else pool, root)
+        else:
+            t = run_and_reload(w["desc"], w["inputs"], w["meta"]["kinds"], st, False, root, entry=entry)
     finally:
         shutil.rmtree(root, ignore_errors=True)
     for e in t["ev"]:
